@@ -50,6 +50,7 @@ type vfC23Scenario struct {
 	d     *indexData
 	ids   map[string]uint64 // string -> model identifier
 	kind  string
+	dense bool
 }
 
 type vfMemFile struct{ b []byte }
@@ -66,7 +67,10 @@ func (s *vfMemFile) Size() (uint32, error) { return uint32(len(s.b)), nil }
 
 var vfC23Words = []string{"needle", "apple", "banana", "cherry"}
 
-func vfC23GenRepos(r *vfRand, nrepos int, base int) []*vfC23Repo {
+// dense: every repository has 3-5 documents and every document contains the common word "needle" on one or two
+// lines (so that a repository reaches ShardRepoMaxMatchCount in {1, 2} before its last document and the FIRST document
+// of the repository that follows it in the shard matches as well), more tombstones and file tombstones on first documents.
+func vfC23GenRepos(r *vfRand, nrepos int, base int, dense bool) []*vfC23Repo {
 	var repos []*vfC23Repo
 	for i := 0; i < nrepos; i++ {
 		gi := base + i
@@ -111,13 +115,23 @@ func vfC23GenRepos(r *vfRand, nrepos int, base int) []*vfC23Repo {
 			}
 		}
 		nd := 1 + r.Intn(3)
+		if dense {
+			nd = 3 + r.Intn(3)
+		}
 		for j := 0; j < nd; j++ {
 			var ws []string
 			for k, nw := 0, 1+r.Intn(3); k < nw; k++ {
 				ws = append(ws, r.Pick(vfC23Words))
 			}
 			ws = append(ws, "word"+marker)
-			dc := vfC23Doc{name: fmt.Sprintf("%s/f%d.txt", marker, j), content: strings.Join(ws, " ") + "\n", fid: uint64(1000 + gi*10 + j)}
+			content := strings.Join(ws, " ") + "\n"
+			if dense {
+				content = "needle " + content
+				if r.Chance(40) {
+					content += "second line needle " + r.Pick(vfC23Words) + "\n"
+				}
+			}
+			dc := vfC23Doc{name: fmt.Sprintf("%s/f%d.txt", marker, j), content: content, fid: uint64(1000 + gi*10 + j)}
 			if len(rp.subs) > 0 && r.Chance(50) {
 				dc.sub = 1 + r.Intn(len(rp.subs))
 				dc.name = rp.subs[dc.sub-1].path + "/" + dc.name
@@ -126,8 +140,13 @@ func vfC23GenRepos(r *vfRand, nrepos int, base int) []*vfC23Repo {
 		}
 		if r.Chance(20) {
 			rp.ftomb = map[string]struct{}{rp.docs[r.Intn(len(rp.docs))].name: {}}
+		} else if dense && r.Chance(25) {
+			rp.ftomb = map[string]struct{}{rp.docs[0].name: {}}
 		}
 		rp.tomb = r.Chance(12)
+		if dense && i > 0 {
+			rp.tomb = r.Chance(25)
+		}
 		repos = append(repos, rp)
 	}
 	return repos
@@ -225,9 +244,10 @@ func vfC23NewScenario(t testing.TB, r *vfRand, tag string, base int) *vfC23Scena
 	if r.Chance(85) {
 		nrepos = 2 + r.Intn(4)
 	}
-	gen := vfC23GenRepos(r, nrepos, base)
+	dense := nrepos > 1 && r.Chance(45)
+	gen := vfC23GenRepos(r, nrepos, base, dense)
 	d := vfC23Build(t, gen, tag)
-	sc := &vfC23Scenario{d: d, ids: map[string]uint64{}, kind: fmt.Sprintf("repos=%d", nrepos)}
+	sc := &vfC23Scenario{d: d, ids: map[string]uint64{}, kind: fmt.Sprintf("repos=%d", nrepos), dense: dense}
 	byName := map[string]*vfC23Repo{} // keyed by Source (unique); names may be shared between tenants
 	for _, rp := range gen {
 		byName["/src/"+rp.marker] = rp
@@ -522,6 +542,21 @@ func vfC23Run(t *testing.T, r *vfRand, n int, strict bool) {
 			cx = ctxs[2+r.Intn(3)]
 		}
 		q := vfC23Query(r, sc.repos, 2)
+		if sc.dense && r.Chance(50) {
+			// a query every document of a dense shard satisfies (alone or under a random conjunct / disjunct)
+			w := "needle"
+			all := vfC23Q{&query.Substring{Pattern: w, Content: true}, func(_ *vfC23Repo, dc *vfC23Doc) bool { return strings.Contains(dc.content, w) }, "content:" + w}
+			switch r.Intn(3) {
+			case 0:
+				q = all
+			case 1:
+				a := q
+				q = vfC23Q{&query.Or{Children: []query.Q{all.q, a.q}}, func(rp *vfC23Repo, dc *vfC23Doc) bool { return all.eval(rp, dc) || a.eval(rp, dc) }, "(or " + all.desc + " " + a.desc + ")"}
+			default:
+				a := q
+				q = vfC23Q{&query.And{Children: []query.Q{all.q, a.q}}, func(rp *vfC23Repo, dc *vfC23Doc) bool { return all.eval(rp, dc) && a.eval(rp, dc) }, "(and " + all.desc + " " + a.desc + ")"}
+			}
+		}
 		fieldMap := r.Chance(40)
 		allowed := func(rp *vfC23Repo) bool {
 			if !strict || cx.code == -2 {
@@ -549,6 +584,63 @@ func vfC23Run(t *testing.T, r *vfRand, n int, strict bool) {
 		res, err := sc.d.Search(cx.ctx, q.q, &opts)
 		if err != nil {
 			t.Fatalf("Search(%s): %v", q.desc, err)
+		}
+		// ---- the same search under match-count limits: ShardRepoMaxMatchCount in {0, 1, 2} (the skip-ahead branch of the
+		// document loop), ShardMaxMatchCount in {default, 1, 2, 3, 5}.  The number of matches each file match contributes
+		// (line matches + chunk ranges) is taken from an unlimited search under the system context with the same options.
+		lim := opts
+		lim.ShardRepoMaxMatchCount = r.Intn(3)
+		if sc.dense && lim.ShardRepoMaxMatchCount == 0 && r.Chance(60) {
+			lim.ShardRepoMaxMatchCount = 1 + r.Intn(2)
+		}
+		if r.Chance(30) {
+			lim.ShardMaxMatchCount = []int{1, 2, 3, 5}[r.Intn(4)]
+		}
+		resLim, err := sc.d.Search(cx.ctx, q.q, &lim)
+		if err != nil {
+			t.Fatalf("Search(%s, limits): %v", q.desc, err)
+		}
+		sysOpts := opts
+		resSys, err := sc.d.Search(ctxs[0].ctx, q.q, &sysOpts)
+		if err != nil {
+			t.Fatalf("Search(%s, system): %v", q.desc, err)
+		}
+		var wrows []string
+		for _, f := range resSys.Files {
+			wt := len(f.LineMatches)
+			for _, cm := range f.ChunkMatches {
+				wt += len(cm.Ranges)
+			}
+			wrows = append(wrows, cTuple(cN(sc.id(f.FileName)), cZ(int64(wt))))
+		}
+		limDesc := fmt.Sprintf("ShardRepoMaxMatchCount=%d ShardMaxMatchCount=%d", lim.ShardRepoMaxMatchCount, lim.ShardMaxMatchCount)
+		for _, ch := range vfC23Leaks(resLim, sc.repos, allowed) {
+			rp2 := map[string]any{"op": "search", "options": limDesc, "RepoURLs": resLim.RepoURLs, "LineFragments": resLim.LineFragments}
+			var fl []string
+			for _, f := range resLim.Files {
+				fl = append(fl, f.Repository+"/"+f.FileName)
+			}
+			rp2["files"] = fl
+			for k, v := range replay {
+				rp2[k] = v
+			}
+			vfOracleFail("search-leak:"+ch, "Search with "+limDesc+" under context "+cx.name+" exposes the "+ch+" of a repository of another tenant", rp2)
+		}
+		// a limited search returns a sub-sequence of the unlimited one (same context), never something else
+		{
+			unl := map[string]bool{}
+			for _, f := range res.Files {
+				unl[f.Repository+"\x00"+f.FileName] = true
+			}
+			for _, f := range resLim.Files {
+				if !unl[f.Repository+"\x00"+f.FileName] {
+					rp2 := map[string]any{"op": "search", "options": limDesc, "file": f.Repository + "/" + f.FileName}
+					for k, v := range replay {
+						rp2[k] = v
+					}
+					vfOracleFail("search-limited:not-in-unlimited", "Search with "+limDesc+" under context "+cx.name+" returns "+f.Repository+"/"+f.FileName+" which the unlimited search under the same context does not return", rp2)
+				}
+			}
 		}
 		lopts := &zoekt.ListOptions{Field: zoekt.RepoListFieldRepos}
 		if fieldMap {
@@ -620,7 +712,31 @@ func vfC23Run(t *testing.T, r *vfRand, n int, strict bool) {
 		sort.Slice(lids, func(a, b int) bool { return lids[a] < lids[b] })
 		sobs := cTuple(ofiles, vfPairs(sc, res.RepoURLs), vfPairs(sc, res.LineFragments))
 		lobs := cTuple(cNList(lnames), cNList(lids), cN(uint64(rl.Stats.Documents)), cN(uint64(rl.Stats.Repos)))
-		coq := cTuple(cBool(strict), cZ(cx.code), vfC23ShardTerm(sc, q.eval), cBool(scan), lsimp, cBool(fieldMap), sobs, lobs)
+		base := cTuple(cBool(strict), cZ(cx.code), vfC23ShardTerm(sc, q.eval), cBool(scan), lsimp, cBool(fieldMap), sobs, lobs)
+		var lrows []string
+		for _, f := range resLim.Files {
+			lrows = append(lrows, cTuple(cN(sc.id(f.Repository)), cN(uint64(f.RepositoryID)), cN(sc.id(f.FileName)), cN(sc.id(f.SubRepositoryName))))
+		}
+		olim, wl := "[]", "[]"
+		if len(lrows) > 0 {
+			olim = cList(lrows)
+		}
+		if len(wrows) > 0 {
+			wl = cList(wrows)
+		}
+		smax := lim.ShardMaxMatchCount
+		if smax == 0 {
+			smax = 100000 // SearchOptions.SetDefaults
+		}
+		coq := cTuple(base, cTuple(cZ(int64(lim.ShardRepoMaxMatchCount)), cZ(int64(smax)), wl, olim))
+		// layout: a live repository the caller sees with >= 2 documents is directly followed by one it must not see / a tombstoned one
+		ownThenHidden := false
+		for k := 0; k+1 < len(sc.repos); k++ {
+			a, b := sc.repos[k], sc.repos[k+1]
+			if allowed(a) && !a.tomb && len(a.docs) >= 2 && (!allowed(b) || b.tomb) {
+				ownThenHidden = true
+			}
+		}
 		foreign := 0
 		for _, rp := range sc.repos {
 			if !allowed(rp) {
@@ -638,8 +754,10 @@ func vfC23Run(t *testing.T, r *vfRand, n int, strict bool) {
 			}
 		}
 		class := []string{sc.kind, fmt.Sprint("same-name-foreign=", dupForeign), "ctx=" + cx.name, fmt.Sprint("strict=", strict), fmt.Sprint("scan=", scan), "lsimp=" + lsimp,
-			fmt.Sprint("files>0=", len(res.Files) > 0), fmt.Sprint("foreign>0=", foreign > 0)}
-		vfCase(coq, vfKey(nsc, cx.name, q.desc, fieldMap, strict), foreign > 0 && scan && len(sc.repos) > 1, class,
+			fmt.Sprint("files>0=", len(res.Files) > 0), fmt.Sprint("foreign>0=", foreign > 0),
+			fmt.Sprint("dense=", sc.dense), fmt.Sprint("repomax=", lim.ShardRepoMaxMatchCount), fmt.Sprint("shardmax=", lim.ShardMaxMatchCount),
+			fmt.Sprint("limit-cuts=", len(resLim.Files) < len(res.Files)), fmt.Sprint("own-then-hidden=", ownThenHidden)}
+		vfCase(coq, vfKey(nsc, cx.name, q.desc, fieldMap, strict, limDesc), foreign > 0 && scan && len(sc.repos) > 1, class,
 			map[string]any{"ctx": cx.name, "query": q.desc, "shard": rdesc, "files": len(res.Files), "repourls": len(res.RepoURLs), "list": len(rl.Repos) + len(rl.ReposMap)})
 	}
 }
